@@ -1,6 +1,9 @@
 (* C08 -- Subcommands scope what follows them.
    Property theorems only; proofs live in Lemmas/. *)
-From BpafLemmas Require Import Tac Find Reach Ledger NoLoss C05Lemmas OkReach OkLaws HelpLaws CmdLaws PickLaws.
+From Coq Require Import List.
+From BpafModel Require Import Conv.
+From BpafLemmas Require Import Tac Find Reach Ledger NoLoss C05Lemmas OkReach OkLaws HelpLaws CmdLaws PickLaws ConvRefine ConvChain ConvTree ConvTreeSound.
+Import ListNotations.
 
 (* A subcommand is entered only when its name is the FIRST live item of the enclosing scope. *)
 Theorem C08_enter_first_live :
@@ -46,7 +49,7 @@ Theorem C08_enter :
     | (SPanic w, s4) => (RPanic w, s4)
     | (SFuel, s4) => (RFuel, s4)
     end.
-Proof. exact cmd_enter. Qed.
+Proof. exact CmdLaws.cmd_enter. Qed.
 Print Assumptions C08_enter.
 
 (* a name that is not there: the command reports itself missing (catchable: absence) *)
@@ -117,3 +120,32 @@ Example C08_example :
   = OutOk (VTuple [VBool true; VBool true]) /\
   (exists m, run_inner (mkFeat true true false) (fun _ => None) top None [[45;120]%N; [99;109;100]%N] = OutStderr m).
 Proof. split; [|eexists]; vm_compute; reflexivity. Qed.
+
+(* On conventional subcommand trees (Model/Conv.v; any number of subcommands with aliases at every
+   level): a level that offers subcommands is a sentence exactly through ONE of them -- the scan
+   stops at the first free word naming it, everything to its right is judged by that subcommand's
+   own grammar (the enclosing items being ancestors), and its value comes last in the enclosing
+   result; the parser returns exactly that value. *)
+Theorem C08_subcommand_value_tree :
+  forall feat env items cs argv v,
+  tree_ok (Level items (TCmds cs)) ->
+  denote (Level items (TCmds cs)) argv = Accept v ->
+  let st := short_tables (compile_options (Level items (TCmds cs))) in
+  let ts := mark_tokens (tokenize (fst st) (snd st) argv) in
+  exists a sub rest vs sv,
+    scan items [] (TCmds cs) ts = ScCmd a sub rest /\
+    denote_level (length ts) sub ([] ++ items) rest = Accept sv /\
+    items_values items 0 (at_occ a) = Some vs /\
+    v = VTuple (vs ++ [sv]) /\
+    run_inner feat env (compile_options (Level items (TCmds cs))) None argv = OutOk v.
+Proof. exact tree_cmd_value. Qed.
+Print Assumptions C08_subcommand_value_tree.
+
+(* ... and the run succeeds IFF the grammar (hence the subcommand's own grammar on what follows its
+   name) accepts: both directions, for every specified vector *)
+Theorem C08_tree_conformance :
+  forall feat env l argv v,
+  tree_ok l -> plain_cmds l = true -> denote l argv <> Unspecified ->
+  (denote l argv = Accept v <-> run_inner feat env (compile_options l) None argv = OutOk v).
+Proof. exact denote_complete_tree. Qed.
+Print Assumptions C08_tree_conformance.
